@@ -597,7 +597,7 @@ PROPS["C20"] = {
     "rule": "every reachable state of the bounded namespace x every path x every assert_vfs_* macro (with matching and non-matching expected values); "
             "non-trivial = the macro passes; distinct = distinct (history, macro invocation)",
     "trusted": ["catch_unwind + panic payload for the macro message", "hook sys::verif::memfs_snapshot"],
-    "assumptions": ["Stdfs side: see C02 (not yet run for the macros)", "the path named in a panic message is not compared, only the macro name"],
+    "assumptions": ["Stdfs side: every macro is in C02's alphabet and runs there on both backends", "the path named in a panic message is not compared, only the macro name"],
 }
 
 
